@@ -143,6 +143,8 @@ class SlotInterp:
                 if isinstance(val, tuple) and val[0] == "variant":
                     present = (val[1] == 1)
                     st = st[:ci] + (present,) + st[ci + 1:]
+                elif ci in self.bool_cells and isinstance(val, int):
+                    st = st[:ci] + (bool(val),) + st[ci + 1:]
                 else:
                     raise Unsupported("store of unknown value into slot %s in %s"
                                       % (".".join(self.cells[ci]), body.nid))
